@@ -47,27 +47,37 @@ Qed.
 
 (* the literal reading of the cap fails on the model exactly as on the code: two pools with different allowed
    uses, MaxBlocksPerHost = 1, one node asks for a Workload and then for a Tunnel address *)
-Definition cap_cfg : config :=
+Definition cap_cfg (capfix : bool) : config :=
   {| g_pools := [ {| p_base := 167772416; p_nblocks := 2; p_bsize := 4; p_disabled := false; p_manual := false;
                      p_uses := [UWorkload]; p_nodesel := []; p_nssel := []; p_starts := [] |};
                   {| p_base := 167772672; p_nblocks := 2; p_bsize := 4; p_disabled := false; p_manual := false;
                      p_uses := [UTunnel]; p_nodesel := []; p_nssel := []; p_starts := [] |} ];
-     g_resv := []; g_strict := true; g_autoalloc := true; g_maxblocks := 1; g_retries := 100; g_nodes := [(0, [])] |}.
+     g_resv := []; g_strict := true; g_autoalloc := true; g_maxblocks := 1; g_retries := 100; g_nodes := [(0, [])];
+     g_fx := false; g_capfix := capfix |}.
 Definition cap_ops : list op :=
   [ OpAutoAssign {| q_node := 0; q_use := UWorkload; q_ns := []; q_pools := []; q_maxblocks := 0; q_handle := 1; q_tag := 0; q_num := 1 |};
     OpAutoAssign {| q_node := 0; q_use := UTunnel; q_ns := []; q_pools := []; q_maxblocks := 0; q_handle := 2; q_tag := 0; q_num := 1 |} ].
 
 Lemma cap_literal_refuted :
-  let '(s, rs) := run_ops cap_cfg init_store cap_ops in
+  let '(s, rs) := run_ops (cap_cfg false) init_store cap_ops in
   rs = [RIPs [(167772416, 30%nat)] ENone; RIPs [(167772672, 30%nat)] ENone] /\
-  count_affs (snap_of (st_ents s)) 0 (fun _ => true) = 2%nat /\ g_maxblocks cap_cfg = 1%nat.
+  count_affs (snap_of (st_ents s)) 0 (fun _ => true) = 2%nat /\ g_maxblocks (cap_cfg false) = 1%nat.
+Proof. vm_compute. repeat split. Qed.
+
+(* the same history on the variant with fixes/C20-count-all-affine-blocks.patch: the second request fails with the
+   block-limit error, returns nothing, and the node keeps one affine block *)
+Lemma cap_fixed_witness :
+  let '(s, rs) := run_ops (cap_cfg true) init_store cap_ops in
+  rs = [RIPs [(167772416, 30%nat)] ENone; RIPs [] EBlockLimit] /\
+  count_affs (snap_of (st_ents s)) 0 (fun _ => true) = 1%nat.
 Proof. vm_compute. repeat split. Qed.
 
 (* requested pools bypass the node selector (documented in determinePools: "for backwards compatibility") *)
 Definition byp_cfg : config :=
   {| g_pools := [ {| p_base := 167772416; p_nblocks := 2; p_bsize := 4; p_disabled := false; p_manual := false;
                      p_uses := [UWorkload]; p_nodesel := [SHas 0]; p_nssel := []; p_starts := [] |} ];
-     g_resv := []; g_strict := false; g_autoalloc := true; g_maxblocks := 0; g_retries := 100; g_nodes := [(0, [])] |}.
+     g_resv := []; g_strict := false; g_autoalloc := true; g_maxblocks := 0; g_retries := 100; g_nodes := [(0, [])];
+     g_fx := false; g_capfix := false |}.
 Definition byp_req (rq : list (N * N)) : request :=
   {| q_node := 0; q_use := UWorkload; q_ns := []; q_pools := rq; q_maxblocks := 0; q_handle := 1; q_tag := 0; q_num := 1 |}.
 
